@@ -269,7 +269,7 @@ for _case, _node, _prev, _next, _perm in (
          obj('Roadm', restrictions=dct(booster_variety_list=const([]), preamp_variety_list=const(['A']))), "x == 'A'"),
         ('models allowed for design', dict(variety_list=const(None)), obj('Fiber'), obj('Fiber'),
          "equipment['Edfa'][x].allowed_for_design")):
-    contract('gnpy.core.network.get_node_restrictions', name=f'gnpy.core.network.get_node_restrictions[{_case}]', props=['C10'],
+    contract('gnpy.core.network.get_node_restrictions', name=f'gnpy.core.network.get_node_restrictions[{_case}]', props=['C10', 'C08'],
              params={'node': obj('Edfa', params=obj('<ns>', type_variety=const('')), **_node), 'prev_node': _prev,
                      'next_node': _next, 'equipment': EQ_LIB, '_design_bands': BANDS}, spec=SPEC_RESTR,
              let={'band': "_design_bands['CBAND']"},
@@ -277,7 +277,7 @@ for _case, _node, _prev, _next, _perm in (
                        _perm.replace('x', f"'{k}'") + f" and COVERS(equipment['Edfa']['{k}'], band))") for k in 'AB'] +
                      [('no_multiband_model', "'M' not in result")],
              use_at_calls=False, modifies=[])
-contract('gnpy.core.network.get_node_restrictions', name='gnpy.core.network.get_node_restrictions[operator-chosen model]', props=['C10'],
+contract('gnpy.core.network.get_node_restrictions', name='gnpy.core.network.get_node_restrictions[operator-chosen model]', props=['C10', 'C08'],
          params={'node': obj('Edfa', params=obj('<ns>', type_variety=const('B')), variety_list=const(['A'])), 'prev_node': obj('Fiber'),
                  'next_node': obj('Fiber'), 'equipment': EQ_LIB, '_design_bands': BANDS},
          ensures=[('only_that_model', "result == ['B']")], use_at_calls=False, modifies=[])
